@@ -266,6 +266,11 @@ func (te *TypeEnv) typeFacts(t types.Type, v *Term, alloc *Term, depth int) *Ter
 	case *types.Slice:
 		return mkAnd(refOK(sliceRef(v)), wfSliceT(v))
 	case *types.Interface:
+		if u.NumMethods() > 0 {
+			// a non-nil value of a non-empty interface type has a dynamic type implementing it
+			tag := mkSel(v, 0)
+			return mkOr(mkEq(tag, mkInt(0)), mkApp("implements:"+te.typeStr(t), sortBool, tag))
+		}
 		return tTrue
 	case *types.Struct:
 		if depth > 3 {
